@@ -72,7 +72,7 @@ func c04Gen(rng *rand.Rand, m *model.Model, keys []string) []string {
 	case 25, 26, 27:
 		a := []string{"HRANDFIELD", k}
 		if rng.Intn(4) > 0 {
-			a = append(a, pick(rng, []string{"0", "1", strconv.Itoa(n - 1), strconv.Itoa(n), strconv.Itoa(n + 5), "-1", strconv.Itoa(-n - 5), "x", "-3"}))
+			a = append(a, pick(rng, []string{"0", "1", strconv.Itoa(n - 1), strconv.Itoa(n), strconv.Itoa(n + 5), "-1", strconv.Itoa(-n - 5), "x", "-3", "-9223372036854775808"}))
 			if rng.Intn(2) == 0 {
 				a = append(a, randCase(rng, "WITHVALUES"))
 			}
@@ -222,8 +222,16 @@ func c04Collisions(r *verdict.Run) {
 		return
 	}
 	defer func() { c.Stop() }()
-	for _, bits := range []int{12, 16, 20, 31} {
-		a, b, ok := collidingPair(rng, "cf", bits)
+	for _, bits := range []int{12, 16, 20, 31, 32} {
+		var a, b string
+		var ok bool
+		if bits < 32 {
+			a, b, ok = collidingPair(rng, "cf", bits)
+		} else {
+			// a fixed pair whose hashes agree in all 32 low bits (found by chance; a search would need ~2^32 trials):
+			// before the repair of redisDict.store the second write never returned
+			a, b, ok = "vp:23d4aed59cb1ce9a", "vp:3a5b9dff7ee2196e", sutHash("vp:23d4aed59cb1ce9a")&0xffffffff == sutHash("vp:3a5b9dff7ee2196e")&0xffffffff
+		}
 		if !ok {
 			r.Inconclusive(fmt.Sprintf("no pair of names sharing %d hash bits found", bits))
 			continue
